@@ -490,7 +490,7 @@ func main() {
 	acyclicBoost := 8
 	if run.Thorough() {
 		maxN = 4
-		perTopo = map[int]int{1: 200, 2: 100, 3: 40, 4: 2}
+		perTopo = map[int]int{1: 200, 2: 100, 3: 30, 4: 1}
 		acyclicBoost = 15
 	}
 	idx := 0
